@@ -178,7 +178,8 @@ Terminated == AllDone /\ UNCHANGED vars
 
 Next == \/ \E t \in Threads, o \in Ops : Start(t, o)
         \/ \E t \in Threads, b \in Bufs : Acquire(t, b)
-        \/ \E t \in Threads : Crit(t) \/ Finish(t)
+        \/ \E t \in Threads : Crit(t)
+        \/ \E t \in Threads : Finish(t)
         \/ Terminated
 
 Spec == Init /\ [][Next]_vars
